@@ -327,7 +327,7 @@ def metamodel_export_tofile(metamodel, f, renderer=None):
     if renderer is None:
         renderer = DotRenderer()
     f.write(renderer.get_header())
-    classes = get_unified_classes(metamodel)
+    classes = get_unified_classes(_all_classes(metamodel))
     classes = [c for c in classes if c.fqn not in ALL_TYPE_NAMES]
     for cls in classes:
         if cls.name not in ALL_TYPE_NAMES:
@@ -342,6 +342,19 @@ def metamodel_export_tofile(metamodel, f, renderer=None):
         for inherited_by in cls.inh_by:
             f.write(renderer.render_inherited_by(cls, inherited_by))
     f.write(f"{renderer.get_trailer()}")
+
+
+def _all_classes(metamodel):
+    """
+    The classes of the main grammar and of the grammars it imports directly
+    (in iteration order of the meta-model), followed by the classes of the
+    grammars that are imported indirectly.
+    """
+    classes = {cls._tx_fqn: cls for cls in metamodel}
+    for namespace in getattr(metamodel, "namespaces", {}).values():
+        for cls in namespace.values():
+            classes.setdefault(cls._tx_fqn, cls)
+    return list(classes.values())
 
 
 def get_unified_classes(classes: List[TextXMetaClass]) -> Iterable[Cls]:
